@@ -20,7 +20,7 @@ RULE = ('tree models (generator of C13: nested blocks, leaves, references, one o
         'abstract processor call; after every load the class snapshot equals the pre-load snapshot and no per-object '
         'storage is left. distinct = (class variant, tree shape, outcome); non-trivial = failing load or two-file load')
 REQUIRED = {'loads': 600, 'failed_loads': 100, 'init_calls_checked': 3000, 'snapshots_compared': 600, 'two_file_loads': 50,
-            'nested_failures': 15, 'class_variants': 4, 'loads_aborted_by_base_exception': 50}
+            'nested_failures': 15, 'class_variants': 4, 'loads_aborted_by_base_exception': 50, 'metamodels_with_annotating_provider': 50, 'loads_yielding_a_plain_value': 50}
 
 ATTRS = {'Block': {'name', 'first', 'items', 'alt', 'tag'}, 'Leaf': {'name', 'val'}, 'Ref': {'name', 'target'}}
 VARIANTS = ['plain', 'slots', 'frozen', 'dunders', 'inherited']
@@ -96,8 +96,48 @@ class Abort(BaseException):
     """a load can also be aborted by something that is not an Exception (KeyboardInterrupt, SystemExit, pytest's skip)"""
 
 
+def primitive_root(ctx, i, rep):
+    """the top rule can yield a plain value (an abstract rule with base-type alternatives): such a model is an int / str,
+    not a textX object; user classes must be left as they were after such a load too"""
+    from textx import metamodel_from_str, TextXError
+    r = ctx.rng('prim', i)
+
+    class Foo:
+        def __init__(self, parent=None, a=None, sub=None):
+            self.parent, self.a, self.sub = parent, a, sub
+
+    class Bar:
+        def __init__(self, parent=None, b=None):
+            self.parent, self.b = parent, b
+    classes = [Foo, Bar]
+    mm = metamodel_from_str("Top: INT | STRING | Foo;\nFoo: 'x' a=INT ('{' sub=Bar '}')?;\nBar: 'y' b=INT;\n", classes=classes)
+    base = snapshot(classes)
+    for k in range(4):
+        text = r.choice(['5', '"s"', 'x 3', 'x 4 { y 2 }', '-7', 'x { y', '?'])
+        try:
+            m = mm.model_from_str(text)
+            outcome = type(m).__name__
+        except TextXError:
+            outcome = 'error'
+        ctx.count('loads')
+        ctx.count('snapshots_compared')
+        if outcome in ('int', 'str'):
+            ctx.count('loads_yielding_a_plain_value')
+        wit = {'grammar': 'Top: INT | STRING | Foo; ...', 'input': text, 'outcome': outcome}
+        ctx.case(('primitive-root', text), True, wit if ctx.evaluations % 3000 == 11 else None)
+        snap = snapshot(classes)
+        if snap != base:
+            for c in classes:
+                if snap[c.__name__] != base[c.__name__]:
+                    ctx.violation(None, 'after loading %r (result: %s) class %s is not as it was before loading: %r' % (
+                        text, outcome, c.__name__, {kk: vv for kk, vv in snap[c.__name__].items() if vv != base[c.__name__][kk]}), wit, rep)
+                    return
+
+
 def one(ctx, i, rep=None):
     from textx import metamodel_from_str, TextXError
+    if i % 6 == 5:
+        return primitive_root(ctx, i, rep or {'i': i})
     from textx.model import ObjCrossRef
     import textx.scoping.providers as sp
     rep = rep or {'i': i}
@@ -136,7 +176,18 @@ def one(ctx, i, rep=None):
             return None
         return p
     mm = metamodel_from_str(T.GRAMMAR, classes=classes)
-    mm.register_scope_providers({'*.*': sp.PlainNameImportURI()})
+    annotate = (i % 3 == 1)
+
+    class Prov(sp.PlainNameImportURI):
+        # a scope provider that leaves a note on the referencing object while the model is still being built: that
+        # attribute is not an attribute of the rule and must not reach the constructor
+        def __call__(self, obj, attr, obj_ref):
+            if annotate:
+                obj.resolved_by_harness = 'noted'
+            return sp.PlainNameImportURI.__call__(self, obj, attr, obj_ref)
+    mm.register_scope_providers({'*.*': Prov()})
+    if annotate:
+        ctx.count('metamodels_with_annotating_provider')
     mm.register_obj_processors({'Model': proc('Model'), 'Block': proc('Block'), 'Leaf': proc('Leaf'), 'Ref': proc('Ref'),
                                 'Item': proc('Item'), 'Val': proc('Val', True), 'Tag': proc('Tag', True)})
     classes = [c for c in classes if c.__name__ in ATTRS]
